@@ -1167,6 +1167,8 @@ def _binop(op, a, b, t):
         return ('sptr', a[1], a[2] + (b if op == '+' else -b))
     if op in ('+', '-') and isinstance(a, tuple) and len(a) == 3 and a[0] == 'it' and isinstance(b, int) and not isinstance(b, bool):
         return ('it', a[1], a[2] + (b if op == '+' else -b))
+    if op in ('==', '!=') and isinstance(a, tuple) and isinstance(b, tuple) and len(a) == 2 and len(b) == 2 and a[0] == 'ptr' and b[0] == 'ptr':
+        return (a[1] is b[1]) == (op == '==')          # addresses: identity of the pointee, not equality of its content
     try:
         if op == '==':
             return a == b
